@@ -497,6 +497,10 @@ outer:
 							continue
 						}
 						vr := handleViolation(t, env, fs, w, RunFaultScenario)
+						if vr.Replay == "" {
+							rep.Truncated["violation-not-reproducible-in-fresh-process"]++
+							continue
+						}
 						rep.Violations = append(rep.Violations, vr)
 						unknown++
 						if unknown >= 3 {
